@@ -54,11 +54,9 @@ func VerifC02Pairing() {
 	applied := make([]bool, 3)
 	for i := 0; i < 3; i++ {
 		stake := int64(verif_nondet_in("provider.stake", 1, 63))
-		applied[i] = verif_nondet_bool("provider.stakeAppliedAtEpoch")
-		ab := uint64(10)
-		if !applied[i] {
-			ab = 200
-		}
+		// stake applied long ago, after the epoch start but before the block the pairing is asked at, or in a later epoch
+		ab := []uint64{10, 43, 200}[verif_nondet_range("provider.stakeAppliedBlock", 0, 2)]
+		applied[i] = ab <= 40
 		verifC02Entries = append(verifC02Entries, epochstoragetypes.StakeEntry{Address: names[i], Chain: "LAV1", Geolocation: 1, StakeAppliedBlock: ab,
 			Stake: sdk.Coin{Denom: "ulava", Amount: math.NewInt(stake)}, DelegateTotal: sdk.Coin{Denom: "ulava", Amount: math.ZeroInt()}})
 	}
@@ -74,7 +72,9 @@ func VerifC02Pairing() {
 	draws := []int64{verif_nondet_i64("prng.draw"), verif_nondet_i64("prng.draw"), verif_nondet_i64("prng.draw")}
 
 	verifC02SetDraws(draws)
-	providers, allowedCU, _, err := w.k.getPairingForClient(w.ctx, "LAV1", 40, &policy, "cluster", "proj", false)
+	// the pairing is asked for at the epoch start or at a block inside the epoch (epochs of 20 blocks: 45 lies in epoch 40)
+	askedAt := uint64(40 + 5*verif_nondet_range("pairingAskedAtBlockInEpoch/5", 0, 1))
+	providers, allowedCU, _, err := w.k.getPairingForClient(w.ctx, "LAV1", askedAt, &policy, "cluster", "proj", false)
 
 	eligible := 0
 	ok := make([]bool, 3)
